@@ -36,6 +36,7 @@ pub fn warm_up() {
     util_dirs: vec![RuleDir { name: "utils".into(), files: util_files }],
     with_tests: true,
     ignore_file: None,
+    injections: 2,
   };
   let root = cli_run::scratch_root().join("warmup");
   w.materialize(&root);
@@ -113,6 +114,7 @@ pub fn main() -> i32 {
       util_dirs: if utils.is_empty() { vec![] } else { vec![RuleDir { name: "utils".into(), files: utils.iter().enumerate().map(|(i, s)| RuleFile { name: format!("u{i}.yml"), docs: vec![s.clone()] }).collect() }] },
       with_tests: true,
       ignore_file: None,
+      injections: 0,
     };
     let root = cli_run::scratch_root().join("selftest");
     w.materialize(&root);
